@@ -79,6 +79,9 @@ def run(rep, tier, seed):
             sample = strings if (tier != 'quick' or len(code) <= 2) else rnd.sample(strings, 40)
             for s in sample:
                 one(b, list(o), s, L if (len(s) + len(o)) % 2 else R, 'exhaustive')
+    # the empty rule set (a context that is being provisioned) is a prefix-free set too: no id is a prefix of anything
+    for s in strings[:64] + [randbits(rnd, 200)]:
+        one(b, [], s, L if len(s) % 2 else R, 'empty-rule-set')
     for _ in range(1500 if tier == 'quick' else 20000):
         n = rnd.randint(1, 8)
         ids = prefix_free_ids(rnd, n)
